@@ -51,11 +51,13 @@ Qed.
 (** in every way of running a test case that the inventory probes *)
 Lemma live_accepted_in_every_way_of_running :
   (forall p m, In p (inv_phases live) -> In m (pi_modes p) -> mode_ok (pi_help_struct p) m) /\
-  (forall e m, In e (inv_entities live) -> In m (ei_modes e) -> mode_ok (ei_help_struct e) m).
+  (forall e m, In e (inv_entities live) -> In m (ei_modes e) -> mode_ok (ei_help_struct e) m) /\
+  (forall s m, In s (inv_suite_sections live) -> In m (si_modes s) -> mode_ok (suite_documented live s) m).
 Proof.
-  destruct live_holds as [H1 [_ [H3 _]]]. split.
+  destruct live_holds as [H1 [H2 [H3 _]]]. split; [|split].
   - intros p m Hp Hm. destruct (H1 p Hp) as [_ [_ [H _]]]. apply H. exact Hm.
   - intros e m He Hm. destruct (H3 e He) as [_ [_ [H _]]]. apply H. exact Hm.
+  - intros s m Hs Hm. destruct (H2 s Hs) as [_ [_ H]]. apply H. exact Hm.
 Qed.
 
 Lemma live_every_help_request_succeeds :
